@@ -66,12 +66,25 @@ func C15(r *core.Run) int {
 	if r.Thorough() {
 		famMax = 300
 	}
+	sampled := map[string]bool{}
 	for _, c := range Sample(specgen.FamilyCases(r.Seed, false), famMax, r.Seed+13) {
 		if c.Spec != nil {
 			bases = append(bases, base{c.ID, c.Spec})
+			sampled[c.ID] = true
 		}
 	}
 	var cases []specgen.Case
+	// the specs with colliding / letter-less route names always take part, as
+	// they are and as bases: the name de-duplication is a loop of its own
+	for _, c := range specgen.FamilyCases(r.Seed, false) {
+		if c.Spec != nil && strings.HasPrefix(c.ID, "router-names-") {
+			if !sampled[c.ID] {
+				bases = append(bases, base{c.ID, c.Spec})
+			}
+			cases = append(cases, specgen.Case{ID: "base/" + c.ID, Family: "mutant", Spec: c.Spec,
+				Flags: specgen.Flags{Client: true}, Label: map[string]string{"op": "identity", "base": c.ID}})
+		}
+	}
 	ops := map[string]int{}
 	for bi, b := range bases {
 		for mi, m := range specgen.Mutants(b.doc, r.Seed*1000+int64(bi), perBase) {
